@@ -56,7 +56,9 @@ RULE = ('cases: list4/list5 = one list from the Coq encoder (address size 4/8 x 
         'DWARFInfo: optional warm-up (every DIE parsed), then 1..4 calls among DIE parsing of a unit (top DIE / a '
         'prefix / all), fetch through a random DIE attribute, get_range_list_at_offset_ex, and the enumerations '
         'iter_location_lists / iter_range_lists (both generations), LocationLists.iter_CUs, RangeLists.iter_CUs, '
-        'iter_CU_range_lists_ex, each with 0..2 such calls after each of the first 0..6 yields; malformed = truncations and unknown kinds (model vs '
+        'iter_CU_range_lists_ex, each with 0..2 such calls after each of the first 0..6 yields, or (enumerations that '
+        'seek to every list: iter_range_lists, pre-v5 iter_location_lists) a fetch of a DIFFERENT list of the same '
+        'section through the same object after each yield; 60 of them on DWARF 2-4 files with 2.. lists back to back; malformed = truncations and unknown kinds (model vs '
         'implementation only). distinct = hash(kind, abstract); non-trivial = at least one list entry or one '
         'in-domain classification')
 
@@ -217,16 +219,21 @@ def _list_items(its):
     return [it for it in its if it[0] == 'list']
 
 
-def gen_file(rng, size, indexed=False):
+def gen_file(rng, size, indexed=False, dense=False):
     """One whole-file scenario (see module docstring).  size: 0 small .. 2 large.
-    indexed: favour v5 sections with non-empty offset tables referenced through DW_FORM_loclistx/rnglistx."""
+    indexed: favour v5 sections with non-empty offset tables referenced through DW_FORM_loclistx/rnglistx.
+    dense: a DWARF 2-4 file whose .debug_loc/.debug_ranges hold 2.. lists back to back (no gaps), referenced
+    by many debugging entries."""
     le = rng.random() < 0.5
     asz = rng.choice([4, 8])
-    has4 = rng.random() < (0.3 if indexed else 0.55)
-    has5 = (not has4) or rng.random() < 0.5
+    has4 = dense or rng.random() < (0.3 if indexed else 0.55)
+    has5 = not dense and ((not has4) or rng.random() < 0.5)
     nl = [1, 3, 5][size]
     sc = {'le': le, 'asz': asz}
-    if has4:
+    if dense:
+        sc['loc4'] = _items(rng, lambda: gen_v4loc(rng, asz, _nlen(rng)), True, rng.randint(2, nl + 2), gaps=False)
+        sc['rng4'] = _items(rng, lambda: gen_v4rng(rng, asz, _nlen(rng)), False, rng.randint(2, nl + 2), gaps=False)
+    elif has4:
         sc['loc4'] = _items(rng, lambda: gen_v4loc(rng, asz, _nlen(rng)), True, rng.randint(0, nl)) if rng.random() < 0.85 else None
         sc['rng4'] = _items(rng, lambda: gen_v4rng(rng, asz, _nlen(rng)), False, rng.randint(0, nl)) if rng.random() < 0.85 else None
         if sc['loc4'] is None and sc['rng4'] is None:
@@ -391,15 +398,16 @@ def gen_file(rng, size, indexed=False):
         top += [a for a in extra if a[1] == 'DW_AT_ranges' or a[0] == 'lit']
         rng.shuffle(top)
         cu['dies'].append(top)
-        for _ in range(rng.randint(0, [2, 3, 5][size])):
+        for _ in range(rng.randint(3, 6) if dense else rng.randint(0, [2, 3, 5][size])):
             cu['dies'].append(die_attrs(False))
         cus.append(cu)
     sc['cus'] = [[c['version'], c['is64'], c.get('table', -1), c['dies']] for c in cus]
     return ['file', [sc['le'], sc['asz'], sc['loc4'], sc['rng4'], sc['tables'], sc['loc5'], sc['rng5'], sc['cus']]]
 
 
-def gen_script(rng, a):
-    """a script for one whole-file scenario: top-level ops
+def gen_script(rng, a, focus=False):
+    """focus: favour enumerations interleaved with fetches of other lists of the same section.
+    a script for one whole-file scenario: top-level ops
          ['act', simple] | ['iter_loc', gen, sched] | ['iter_rng', gen, sched] | ['cus_loc', sched] | ['cus_rng', sched]
          | ['cu_ex', unit block index, sched]
        simple = ['parse', unit, n DIEs] | ['fetch', unit, die, attribute name] | ['get_ex', unit block, list]
@@ -426,15 +434,38 @@ def gen_script(rng, a):
         # mostly DIE parsing between the yields, sometimes fetches (which may read the enumerated section)
         p = rng.choice([1.0, 1.0, 0.8, 0.5])
         return [[simple(p) for _ in range(rng.choice([0, 1, 1, 2]))] for _ in range(rng.randint(0, 6))]
+
+    def target(at):
+        return (at[2], None, at[4]) if at[2] in ('loc4', 'rng4') else (at[2], at[4], at[5])
+    # every reference of the debugging entries: (unit is v5, section, item, fetch op or None for a locviews reference)
+    refs = [(cu[0] >= 5, target(at), [k, d, at[1]] if at[0] == 'ref' else None)
+            for k, cu in enumerate(cus) for d, attrs in enumerate(cu[3]) for at in attrs if at[0] in ('ref', 'views')]
+
+    def sched_other(sec, gen_):
+        """after the i-th yield of the enumeration of section sec, fetch through a DIE attribute an item of the SAME
+        section other than the one just yielded (the enumeration yields the referenced items in section order)"""
+        order = sorted({t[1:] for v5, t, _ in refs if t[0] == sec and v5 == (gen_ == 5)}, key=lambda x: (x[0] or 0, x[1]))
+        out = []
+        for item in order[:8]:
+            cands = [f for v5, t, f in refs if f is not None and t[0] == sec and t[1:] != item and v5 == (gen_ == 5)]
+            hook = [['fetch'] + rng.choice(cands)] if cands and rng.random() < 0.85 else []
+            if rng.random() < 0.2:
+                hook.append(parse())
+            out.append(hook)
+        return out
+
+    def any_calls(op, sec, gen_):
+        # enumerations that reach every list by an absolute seek: the consumer may use the same object in between
+        return lambda: [op, gen_, sched_other(sec, gen_) if rng.random() < (0.9 if focus else 0.4) else sched()]
     enums = []
     if loc4 is not None:
-        enums.append(lambda: ['iter_loc', 4, sched()])
+        enums += [any_calls('iter_loc', 'loc4', 4)] * (3 if focus else 1)
     if rng4 is not None:
-        enums.append(lambda: ['iter_rng', 4, sched()])
+        enums.append(any_calls('iter_rng', 'rng4', 4))
     if loc5 is not None:
         enums += [lambda: ['iter_loc', 5, sched()]] * 3 + [lambda: ['cus_loc', sched()]]
     if rng5 is not None:
-        enums += [lambda: ['iter_rng', 5, sched()], lambda: ['cus_rng', sched()]]
+        enums += [any_calls('iter_rng', 'rng5', 5), lambda: ['cus_rng', sched()]]
         if contiguous:
             enums += [lambda: ['cu_ex', rng.choice(contiguous), sched()]] * 3
     ops = []
@@ -498,6 +529,12 @@ def gen(ctx):
         for _ in range(n):
             a = gen_file(rng, size, indexed=rng.random() < 0.6)[1]
             cases.append(('session', [a, gen_script(rng, a)]))
+    # pre-v5 files with lists back to back, enumerated while the consumer fetches OTHER lists of the same section
+    # through the same object between consecutive yields
+    for size, n in ((1, 30 * T), (2, 30 * T)):
+        for _ in range(n):
+            a = gen_file(rng, size, dense=True)[1]
+            cases.append(('session', [a, gen_script(rng, a, focus=True)]))
     # ---- classification: every name x version, all forms in one case
     for v in (2, 3, 4, 5):
         cases.append(('classify', [v]))
